@@ -21,6 +21,7 @@ import vlib
 from vlib import Inconclusive
 
 FAMILY = "serverconc"
+COMPS = ["g1", "g2", "schemas", "jobs", "static"]
 GRAPHS = ["g1", "g2", "g3"]
 ALL_SCOPE = ["g1", "g2", "g3", "schemas", "jobs"]
 
@@ -184,10 +185,7 @@ def trace_line(i, sessions, out):
     for name, j in sorted(f["jobs"].items()):
         c, k = name.split(".")
         jobs.append(dict(c=int(c), k=int(k), state=j["state"], meta=True))
-    return dict(i=i, cl=cl, final=dict(up=bool(f["up"]), store=store, schemas=schemas, jobs=jobs))
-
-
-COMPS = ["g1", "g2", "schemas", "jobs", "static"]
+    return dict(i=i, comps=list(COMPS), cl=cl, final=dict(up=bool(f["up"]), store=store, schemas=schemas, jobs=jobs))
 
 
 def validate(ctx, lines, realtime=True, checkfinal=True, label=""):
@@ -297,7 +295,7 @@ def name_final_mismatch(line, comp, reachable):
 
 def diagnose_all(ctx, rejected):
     """rejected: [(line, [components no order explains])] -> {(i, comp): (signature, what, detail)}"""
-    lines = [l for l, _ in rejected]
+    lines = [dict(l, comps=comps) for l, comps in rejected]
     acc = validate(ctx, lines, realtime=False, checkfinal=False, label="diagnosis: final states reachable in %d rejected histories" % len(lines))
     out = {}
     for l, comps in rejected:
@@ -486,7 +484,7 @@ def validate_all(ctx, lines, canaries, chunk=500):
     rejected_rt = [l for l in lines if any((l["i"], cm) not in accepted for cm in COMPS)]
     nonlin = 0
     if rejected_rt:
-        acc2 = validate(ctx, rejected_rt, realtime=False)
+        acc2 = validate(ctx, [dict(l, comps=[cm for cm in COMPS if (l["i"], cm) not in accepted]) for l in rejected_rt], realtime=False)
         for l in rejected_rt:
             for cm in COMPS:
                 if (l["i"], cm) not in accepted and (l["i"], cm) in acc2:
